@@ -146,10 +146,22 @@ func (c *Ctx) rangeLoopIndex(idx ssa.Value, x ssa.Value, atoms []Atom) bool {
 		return false
 	}
 	want := "len(" + c.key(x, nil) + ")"
+	if at := arrayOf(x.Type()); at != nil {
+		want = fmt.Sprint(at.Len()) // len of an array is a constant
+	}
 	ik := c.key(idx, nil)
 	for _, a := range atoms {
 		if a.Kind == "cmp" && a.Subj == ik && a.Op == "<" && a.Val == want {
 			return true
+		}
+	}
+	// x = make([]T, n): the index is bounded by the very n the slice was made with
+	if ms, ok := c.resolve(x, nil).(*ssa.MakeSlice); ok {
+		lk := c.key(ms.Len, nil)
+		for _, a := range atoms {
+			if a.Kind == "cmp" && a.Subj == ik && a.Op == "<" && a.Val == lk {
+				return true
+			}
 		}
 	}
 	return false
@@ -175,6 +187,38 @@ func (c *Ctx) strNonEmpty(x ssa.Value, atoms []Atom) bool {
 func (c *Ctx) indexDischarge(fn *ssa.Function, at ssa.Instruction, x, idx ssa.Value, atoms []Atom) (string, bool) {
 	if isLiteralArrayAccess(x, idx) {
 		return "literal array, constant index", true
+	}
+	// a fixed-size array (or a pointer to one, e.g. a package-level table) indexed under explicit bounds:
+	// 0 ≤ idx (by a fact or by construction) and idx < N / idx ≤ N-1 for the array length N
+	if at := arrayOf(x.Type()); at != nil {
+		ik := c.key(idx, nil)
+		lower, upper := c.nonNegative(idx, atoms, map[ssa.Value]bool{}), false
+		for _, a := range atoms {
+			if a.Kind != "cmp" || a.Subj != ik {
+				continue
+			}
+			n, ok := c.constKeyValue(a.Val)
+			if !ok {
+				continue
+			}
+			switch a.Op {
+			case ">=":
+				lower = lower || n >= 0
+			case ">":
+				lower = lower || n >= -1
+			case "<":
+				upper = upper || n <= at.Len()
+			case "<=":
+				upper = upper || n < at.Len()
+			case "==":
+				if n >= 0 && n < at.Len() {
+					lower, upper = true, true
+				}
+			}
+		}
+		if lower && upper {
+			return fmt.Sprintf("array of length %d indexed under dominating bounds 0 ≤ %s < %d", at.Len(), ik, at.Len()), true
+		}
 	}
 	lo, _ := c.lenFactsFor(x, atoms)
 	if n, ok := constIntVal(idx); ok {
@@ -211,6 +255,33 @@ func (c *Ctx) indexDischarge(fn *ssa.Function, at ssa.Instruction, x, idx ssa.Va
 		return by, true
 	}
 	return "", false
+}
+
+func arrayOf(t types.Type) *types.Array {
+	u := t.Underlying()
+	if p, ok := u.(*types.Pointer); ok {
+		u = p.Elem().Underlying()
+	}
+	a, _ := u.(*types.Array)
+	return a
+}
+
+// constKeyValue: the integer value of a key that is a constant (a literal, or a named constant of the
+// module's enum types such as lex.TStart / expr.List).
+func (c *Ctx) constKeyValue(k string) (int64, bool) {
+	var n int64
+	if _, err := fmt.Sscan(k, &n); err == nil && fmt.Sprint(n) == k {
+		return n, true
+	}
+	if strings.HasPrefix(k, "lex.") {
+		v, ok := c.tokTypeConsts()[strings.TrimPrefix(k, "lex.")]
+		return v, ok
+	}
+	if strings.HasPrefix(k, "expr.") {
+		v, ok := c.operatorConsts()[strings.TrimPrefix(k, "expr.")]
+		return v, ok
+	}
+	return 0, false
 }
 
 // linear: v = base + off (constant offsets folded).
@@ -253,6 +324,11 @@ func (c *Ctx) nonNegative(v ssa.Value, atoms []Atom, seen map[ssa.Value]bool) bo
 	for _, a := range atoms {
 		if a.Kind == "cmp" && a.Subj == k && (a.Op == ">=" && a.Val == "0" || a.Op == ">" && (a.Val == "0" || a.Val == "-1")) {
 			return true
+		}
+		if a.Kind == "cmp" && a.Subj == k && (a.Op == ">=" || a.Op == ">" || a.Op == "==") {
+			if n, ok := c.constKeyValue(a.Val); ok && (n >= 0 || a.Op == ">" && n >= -1) {
+				return true
+			}
 		}
 	}
 	switch x := v.(type) {
